@@ -529,6 +529,7 @@ func runScenarios(c *engine.Ctx, al []call, scenarios []scenario, bound int) {
 			first := true
 			var firstKey string
 			schedules = sched.Explore(bound, newBodies, func(x *sched.Exec) bool {
+				t.Alive()
 				t.Transitions(len(x.Points))
 				if x.Diverged != "" {
 					viol = engine.Violate("harness", "", "%s", x.Diverged)
